@@ -91,12 +91,11 @@ theorem strWrite_eq (c : Cfg) (bs : Bytes) (hlen : bs.length < 2 ^ 64) :
 
 theorem pairWrite_eq {α β : Type} (c : Cfg) (a b : Ty) (rawA encA : α → Bytes) (rawB encB : β → Bytes)
     (p : α × β)
-    (hraw : (a.isPod && b.isPod && c.noSwap) = true →
+    (hraw : Gen.Ser.pairRawW a.isPod b.isPod c.noSwap a.size b.size (pairSize a b) = true →
       rawA p.1 = encA p.1 ∧ rawB p.2 = encB p.2 ∧ pairOffB a b = a.size ∧ pairSize a b = pairOffB a b + b.size) :
     pairWrite c a b rawA rawB encA encB p = encA p.1 ++ encB p.2 := by
   unfold pairWrite
-  rw [pairRawW_eq]
-  cases hp : (a.isPod && b.isPod && c.noSwap)
+  cases hp : Gen.Ser.pairRawW a.isPod b.isPod c.noSwap a.size b.size (pairSize a b)
   · simp [pairFirstW_eq]
   · obtain ⟨h1, h2, h3, h4⟩ := hraw hp
     simp [h1, h2, h3, h4, zeros]
@@ -109,27 +108,89 @@ theorem pairTight_offsets (a b : Ty) (hal : 0 < a.align) (hbl : 0 < b.align)
     roundUp_ge _ _ (Nat.lt_of_lt_of_le hal (Nat.le_max_left _ _))
   omega
 
+/-- where the raw `std::pair` path is taken, the pair object has no padding -/
+def pairRawTight (c : Cfg) (a b : Ty) : Prop :=
+  Gen.Ser.pairRawW a.isPod b.isPod c.noSwap a.size b.size (pairSize a b) = true → pairSize a b = a.size + b.size
+
+/-- hypothesis of the layout induction: `pairRawTight` at every pair / map entry of the type -/
+def Ty.rawTight (c : Cfg) : Ty → Prop
+  | .pair a b => pairRawTight c a b ∧ a.rawTight c ∧ b.rawTight c
+  | .vec t => t.rawTight c
+  | .list t => t.rawTight c
+  | .deque t => t.rawTight c
+  | .set t => t.rawTight c
+  | .mset t => t.rawTight c
+  | .uset t => t.rawTight c
+  | .map k v => pairRawTight c k v ∧ k.rawTight c ∧ v.rawTight c
+  | .mmap k v => pairRawTight c k v ∧ k.rawTight c ∧ v.rawTight c
+  | .umap k v => pairRawTight c k v ∧ k.rawTight c ∧ v.rawTight c
+  | .ccons f r => f.rawTight c ∧ r.rawTight c
+  | _ => True
+
+theorem pairRawTight_of_pairTight (c : Cfg) (a b : Ty) (h : c.noSwap = true → pairTight a b = true) :
+    pairRawTight c a b := by
+  intro hraw
+  have hp := pairRaw_imp _ _ _ _ _ _ hraw
+  simp only [Bool.and_eq_true] at hp
+  have ht := h hp.2
+  simpa [pairTight, hp.1.1, hp.1.2] using ht
+
+/-- types without a padded POD pair satisfy the hypothesis (and so does every type in a swapping build) -/
+theorem rawTight_of_padFree (c : Cfg) (t : Ty) (h : c.noSwap = true → t.padFree = true) : t.rawTight c := by
+  induction t with
+  | pair a b iha ihb =>
+    refine ⟨pairRawTight_of_pairTight c a b (fun hs => ?_), iha (fun hs => ?_), ihb (fun hs => ?_)⟩ <;>
+      (have := h hs; simp [Ty.padFree] at this; simp [this])
+  | map k v ihk ihv =>
+    refine ⟨pairRawTight_of_pairTight c k v (fun hs => ?_), ihk (fun hs => ?_), ihv (fun hs => ?_)⟩ <;>
+      (have := h hs; simp [Ty.padFree] at this; simp [this])
+  | mmap k v ihk ihv =>
+    refine ⟨pairRawTight_of_pairTight c k v (fun hs => ?_), ihk (fun hs => ?_), ihv (fun hs => ?_)⟩ <;>
+      (have := h hs; simp [Ty.padFree] at this; simp [this])
+  | umap k v ihk ihv =>
+    refine ⟨pairRawTight_of_pairTight c k v (fun hs => ?_), ihk (fun hs => ?_), ihv (fun hs => ?_)⟩ <;>
+      (have := h hs; simp [Ty.padFree] at this; simp [this])
+  | vec t ih => exact ih (fun hs => by simpa [Ty.padFree] using h hs)
+  | list t ih => exact ih (fun hs => by simpa [Ty.padFree] using h hs)
+  | deque t ih => exact ih (fun hs => by simpa [Ty.padFree] using h hs)
+  | set t ih => exact ih (fun hs => by simpa [Ty.padFree] using h hs)
+  | mset t ih => exact ih (fun hs => by simpa [Ty.padFree] using h hs)
+  | uset t ih => exact ih (fun hs => by simpa [Ty.padFree] using h hs)
+  | ccons f r ihf ihr =>
+    refine ⟨ihf (fun hs => ?_), ihr (fun hs => ?_)⟩ <;>
+      (have := h hs; simp [Ty.padFree] at this; simp [this])
+  | _ => trivial
+
+/-- since the repair of finding C15-F1 every type satisfies the hypothesis -/
+theorem rawTight_all (c : Cfg) (t : Ty) : t.rawTight c := by
+  induction t with
+  | pair a b iha ihb => exact ⟨fun h => pairRaw_tight _ _ _ _ _ _ h, iha, ihb⟩
+  | map k v ihk ihv => exact ⟨fun h => pairRaw_tight _ _ _ _ _ _ h, ihk, ihv⟩
+  | mmap k v ihk ihv => exact ⟨fun h => pairRaw_tight _ _ _ _ _ _ h, ihk, ihv⟩
+  | umap k v ihk ihv => exact ⟨fun h => pairRaw_tight _ _ _ _ _ _ h, ihk, ihv⟩
+  | vec t ih => exact ih
+  | list t ih => exact ih
+  | deque t ih => exact ih
+  | set t ih => exact ih
+  | mset t ih => exact ih
+  | uset t ih => exact ih
+  | ccons f r ihf ihr => exact ⟨ihf, ihr⟩
+  | _ => trivial
+
 theorem pair_layout_case (c : Cfg) (a b : Ty) (hoka : a.ok = true) (hokb : b.ok = true)
-    (htight : c.noSwap = true → pairTight a b = true)
+    (htight : pairRawTight c a b)
     (p : Val a × Val b) (hv : wf a p.1 ∧ wf b p.2) :
     pairWrite c a b (nativeImg c a) (nativeImg c b) (encode c a) (encode c b) p =
       encode c a p.1 ++ encode c b p.2 := by
   apply pairWrite_eq
-  intro hp
+  intro hraw
+  have hp := pairRaw_imp _ _ _ _ _ _ hraw
   simp only [Bool.and_eq_true] at hp
   have ra := pod_raw c a hoka hp.1.1 p.1 hv.1
   have rb := pod_raw c b hokb hp.1.2 p.2 hv.2
-  have ht := htight hp.2
-  simp only [pairTight, hp.1.1, hp.1.2, Bool.and_self, Bool.not_true, Bool.false_or, beq_iff_eq] at ht
+  have ht := htight hraw
   have := pairTight_offsets a b ra.2.2 rb.2.2 ht
   exact ⟨pod_raw_eq_encode c a hoka hp.1.1 hp.2 p.1, pod_raw_eq_encode c b hokb hp.1.2 hp.2 p.2, this.1, this.2⟩
-
-/-- hypothesis of the layout theorems: where the raw `std::pair` path is taken (no byte swapping)
-the pair objects contain no padding -/
-def tightIfRaw (c : Cfg) (t : Ty) : Prop := c.noSwap = true → t.padFree = true
-
-theorem tightIfRaw_of (c : Cfg) {t u : Ty} (h : tightIfRaw c t) (hsub : t.padFree = true → u.padFree = true) :
-    tightIfRaw c u := fun hs => hsub (h hs)
 
 theorem vec_layout_case (c : Cfg) (t : Ty) (hok : t.ok = true)
     (ih : ∀ v : Val t, wf t v → encode c t v = layout c.ioLE t v)
@@ -143,7 +204,7 @@ theorem vec_layout_case (c : Cfg) (t : Ty) (hok : t.ok = true)
     exact ih x (hv.2 x hx)
 
 theorem map_layout_case (c : Cfg) (k w : Ty) (hokk : k.ok = true) (hokw : w.ok = true)
-    (htight : c.noSwap = true → pairTight k w = true)
+    (htight : pairRawTight c k w)
     (ihk : ∀ v : Val k, wf k v → encode c k v = layout c.ioLE k v)
     (ihw : ∀ v : Val w, wf w v → encode c w v = layout c.ioLE w v)
     (xs : List (Val k × Val w)) (hv : wfList (fun p : Val k × Val w => wf k p.1 ∧ wf w p.2) xs) :
@@ -157,7 +218,7 @@ theorem map_layout_case (c : Cfg) (k w : Ty) (hokk : k.ok = true) (hokw : w.ok =
 
 /-- the handlers produce the documented layout -/
 theorem encode_eq_layout (c : Cfg) (t : Ty) (hok : t.ok = true) (hpf : t.podFree = true)
-    (hpad : tightIfRaw c t) : ∀ v : Val t, wf t v → encode c t v = layout c.ioLE t v := by
+    (hpad : t.rawTight c) : ∀ v : Val t, wf t v → encode c t v = layout c.ioLE t v := by
   induction t with
   | arith k n =>
     intro v _
@@ -172,68 +233,48 @@ theorem encode_eq_layout (c : Cfg) (t : Ty) (hok : t.ok = true) (hpf : t.podFree
     intro v hv
     simp only [Ty.ok, Bool.and_eq_true] at hok
     simp only [Ty.podFree, Bool.and_eq_true] at hpf
-    have hta : tightIfRaw c a := tightIfRaw_of c hpad (by simp [Ty.padFree]; intro _ h _; exact h)
-    have htb : tightIfRaw c b := tightIfRaw_of c hpad (by simp [Ty.padFree])
-    have htight : c.noSwap = true → pairTight a b = true := by
-      intro hs; have := hpad hs; simp [Ty.padFree] at this; exact this.1.1
     show pairWrite c a b _ _ _ _ v = layout c.ioLE a v.1 ++ layout c.ioLE b v.2
-    rw [pair_layout_case c a b hok.1 hok.2 htight v hv, iha hok.1 hpf.1 hta v.1 hv.1, ihb hok.2 hpf.2 htb v.2 hv.2]
+    rw [pair_layout_case c a b hok.1 hok.2 hpad.1 v hv, iha hok.1 hpf.1 hpad.2.1 v.1 hv.1,
+      ihb hok.2 hpf.2 hpad.2.2 v.2 hv.2]
   | vec t ih =>
     exact fun v hv => vec_layout_case c t (by simpa [Ty.ok] using hok)
-      (ih (by simpa [Ty.ok] using hok) (by simpa [Ty.podFree] using hpf)
-        (tightIfRaw_of c hpad (by simp [Ty.padFree]))) v hv
+      (ih (by simpa [Ty.ok] using hok) (by simpa [Ty.podFree] using hpf) hpad) v hv
   | list t ih =>
     exact fun v hv => vec_layout_case c t (by simpa [Ty.ok] using hok)
-      (ih (by simpa [Ty.ok] using hok) (by simpa [Ty.podFree] using hpf)
-        (tightIfRaw_of c hpad (by simp [Ty.padFree]))) v hv
+      (ih (by simpa [Ty.ok] using hok) (by simpa [Ty.podFree] using hpf) hpad) v hv
   | deque t ih =>
     exact fun v hv => vec_layout_case c t (by simpa [Ty.ok] using hok)
-      (ih (by simpa [Ty.ok] using hok) (by simpa [Ty.podFree] using hpf)
-        (tightIfRaw_of c hpad (by simp [Ty.padFree]))) v hv
+      (ih (by simpa [Ty.ok] using hok) (by simpa [Ty.podFree] using hpf) hpad) v hv
   | set t ih =>
     simp only [Ty.ok, Bool.and_eq_true] at hok
-    exact fun v hv => vec_layout_case c t hok.1
-      (ih hok.1 (by simpa [Ty.podFree] using hpf) (tightIfRaw_of c hpad (by simp [Ty.padFree]))) v hv.1
+    exact fun v hv => vec_layout_case c t hok.1 (ih hok.1 (by simpa [Ty.podFree] using hpf) hpad) v hv.1
   | mset t ih =>
     simp only [Ty.ok, Bool.and_eq_true] at hok
-    exact fun v hv => vec_layout_case c t hok.1
-      (ih hok.1 (by simpa [Ty.podFree] using hpf) (tightIfRaw_of c hpad (by simp [Ty.padFree]))) v hv.1
+    exact fun v hv => vec_layout_case c t hok.1 (ih hok.1 (by simpa [Ty.podFree] using hpf) hpad) v hv.1
   | uset t ih =>
     simp only [Ty.ok, Bool.and_eq_true] at hok
-    exact fun v hv => vec_layout_case c t hok.1
-      (ih hok.1 (by simpa [Ty.podFree] using hpf) (tightIfRaw_of c hpad (by simp [Ty.padFree]))) v hv.1
+    exact fun v hv => vec_layout_case c t hok.1 (ih hok.1 (by simpa [Ty.podFree] using hpf) hpad) v hv.1
   | map k w ihk ihw =>
     simp only [Ty.ok, Bool.and_eq_true] at hok
     simp only [Ty.podFree, Bool.and_eq_true] at hpf
-    have htight : c.noSwap = true → pairTight k w = true := by
-      intro hs; have := hpad hs; simp [Ty.padFree] at this; exact this.1.1
-    exact fun v hv => map_layout_case c k w hok.1.1 hok.1.2 htight
-      (ihk hok.1.1 hpf.1 (tightIfRaw_of c hpad (by simp [Ty.padFree]; intro _ h _; exact h)))
-      (ihw hok.1.2 hpf.2 (tightIfRaw_of c hpad (by simp [Ty.padFree]))) v hv.1
+    exact fun v hv => map_layout_case c k w hok.1.1 hok.1.2 hpad.1
+      (ihk hok.1.1 hpf.1 hpad.2.1) (ihw hok.1.2 hpf.2 hpad.2.2) v hv.1
   | mmap k w ihk ihw =>
     simp only [Ty.ok, Bool.and_eq_true] at hok
     simp only [Ty.podFree, Bool.and_eq_true] at hpf
-    have htight : c.noSwap = true → pairTight k w = true := by
-      intro hs; have := hpad hs; simp [Ty.padFree] at this; exact this.1.1
-    exact fun v hv => map_layout_case c k w hok.1.1 hok.1.2 htight
-      (ihk hok.1.1 hpf.1 (tightIfRaw_of c hpad (by simp [Ty.padFree]; intro _ h _; exact h)))
-      (ihw hok.1.2 hpf.2 (tightIfRaw_of c hpad (by simp [Ty.padFree]))) v hv.1
+    exact fun v hv => map_layout_case c k w hok.1.1 hok.1.2 hpad.1
+      (ihk hok.1.1 hpf.1 hpad.2.1) (ihw hok.1.2 hpf.2 hpad.2.2) v hv.1
   | umap k w ihk ihw =>
     simp only [Ty.ok, Bool.and_eq_true] at hok
     simp only [Ty.podFree, Bool.and_eq_true] at hpf
-    have htight : c.noSwap = true → pairTight k w = true := by
-      intro hs; have := hpad hs; simp [Ty.padFree] at this; exact this.1.1
-    exact fun v hv => map_layout_case c k w hok.1.1 hok.1.2 htight
-      (ihk hok.1.1 hpf.1 (tightIfRaw_of c hpad (by simp [Ty.padFree]; intro _ h _; exact h)))
-      (ihw hok.1.2 hpf.2 (tightIfRaw_of c hpad (by simp [Ty.padFree]))) v hv.1
+    exact fun v hv => map_layout_case c k w hok.1.1 hok.1.2 hpad.1
+      (ihk hok.1.1 hpf.1 hpad.2.1) (ihw hok.1.2 hpf.2 hpad.2.2) v hv.1
   | cnil => intro v _; rfl
   | ccons f r ihf ihr =>
     intro v hv
     simp only [Ty.ok, Bool.and_eq_true] at hok
     simp only [Ty.podFree, Bool.and_eq_true] at hpf
-    rw [encode_ccons,
-      ihf hok.1 hpf.1 (tightIfRaw_of c hpad (by simp [Ty.padFree]; intro h _; exact h)) v.1 hv.1,
-      ihr hok.2 hpf.2 (tightIfRaw_of c hpad (by simp [Ty.padFree])) v.2 hv.2]
+    rw [encode_ccons, ihf hok.1 hpf.1 hpad.1 v.1 hv.1, ihr hok.2 hpf.2 hpad.2 v.2 hv.2]
     rfl
 
 end DmlcModel.Ser
